@@ -459,3 +459,118 @@ _run_before_r6 = run
 def run(ctx):
     _run_before_r6(ctx)
     r6_ok_means_probed(ctx)
+
+
+def r7_lookup_by_the_given_text(ctx):
+    """a move string is accepted exactly when it is the UCI spelling of a legal move"""
+    rid = "C13.R7"
+    ctx.rule(rid, "find_uci looks the candidates up by the text it was given (whitespace-trimmed at most): the value compared with Move::to_uci_string is the argument, not a rewritten spelling - a rewrite to fixed strings accepts texts that are not the UCI form of any legal move (and applies a different move)", floor=1)
+    prog = ctx.prog
+    f = ctx.fn(rid, BB + "find_uci")
+    ex = Exprs(f)
+    IDENT = ("trim", "trim_end", "trim_start", "as_str", "as_ref", "deref", "borrow", "to_string", "to_owned", "into", "clone", "from", "as_bytes")
+    found = 0
+    for bb in f["blocks"]:
+        t = bb["term"]
+        if t["k"] != "call" or bb["cleanup"]:
+            continue
+        for a in t["args"]:
+            tr = ex.operand(a)
+            if not (tr[0] == "agg" and tr[1] == "closure"):
+                continue
+            g = prog.fns.get(tr[2])
+            if g is None or not any(b2["term"]["k"] == "call" and (b2["term"]["callee"].get("key") or "").endswith("Move::to_uci_string") for b2 in g["blocks"]):
+                continue
+            found += 1
+            consts, foreign, from_arg = [], [], False
+            seen = set()
+
+            def walk(x, depth=0):
+                nonlocal from_arg
+                if not isinstance(x, tuple) or depth > 10:
+                    return
+                if x[0] == "c" and isinstance(x[1], str):
+                    consts.append(x[1])
+                elif x == ("param", 2):
+                    from_arg = True
+                elif x[0] == "call":
+                    if x[1].rsplit("::", 1)[-1] not in IDENT:
+                        foreign.append(x[1].rsplit("::", 1)[-1])
+                    for y in x[2]:
+                        walk(y, depth + 1)
+                elif x[0] == "local":
+                    if x[1] in seen:
+                        return
+                    seen.add(x[1])
+                    for dfn in ex.defs.get(x[1], ()):
+                        if dfn[0] == "stmt":
+                            walk(ex.rvalue(dfn[3]), depth + 1)
+                        elif dfn[0] == "call":
+                            tt = dfn[3]
+                            walk(("call", tt["callee"].get("key") or "?", tuple(ex.operand(a_) for a_ in tt["args"]), ""), depth + 1)
+                elif x[0] in ("&", "*", "f", "dc", "cast"):
+                    walk(x[1] if x[0] != "cast" else x[2], depth + 1)
+                elif x[0] == "agg":
+                    for y in x[3]:
+                        walk(y, depth + 1)
+            for cap in tr[3]:
+                if "str" in str(cap) or True:
+                    walk(cap)
+            if consts:
+                ctx.ob(rid, "find_uci|compares-the-given-text", False,
+                       "find_uci compares the candidates' UCI strings with a text that can be one of the fixed spellings %s instead of what the caller gave: a string that is not the UCI form of a legal move (`e1a1` with a rook on e1) is accepted and another move is applied" % sorted(set(consts))[:6],
+                       ctx.where(f, t["line"]))
+            elif foreign or not from_arg:
+                ctx.lost(rid, "the text find_uci compares the candidates with (computed through %s)" % (sorted(set(foreign)) or "something that is not the argument"))
+            else:
+                ctx.ob(rid, "find_uci|compares-the-given-text", True, "", ctx.where(f, t["line"]))
+    if not found:
+        ctx.lost(rid, "the closure of find_uci that compares Move::to_uci_string with the given text")
+
+
+_run_before_r7_text = run
+
+
+def run(ctx):
+    _run_before_r7_text(ctx)
+    r7_lookup_by_the_given_text(ctx)
+
+
+def r8_candidates_generated_for_this_position(ctx):
+    """a Move carries the undo information of the position it was generated in"""
+    rid = "C13.R8"
+    ctx.rule(rid, "the candidate moves of find_uci / uci_to_pgn / make_all_uci are generated from the board they are applied to, in the same call: nothing reachable from them keeps moves in thread-local or static storage (a Move packs the half-move clock and e.p. square to restore; taken from a cache filled on another position with the same placement, its unmake writes that other position's clock back)", floor=1)
+    from ..callgraph import CallGraph
+    prog = ctx.prog
+    entries = [BB + n for n in ("find_uci", "uci_to_pgn", "make_uci", "make_all_uci") if BB + n in prog.fns]
+    if not entries:
+        ctx.lost(rid, "find_uci / uci_to_pgn / make_uci / make_all_uci")
+        return
+    cg = ctx.__dict__.get("_cg") or CallGraph(prog)
+    reach = cg.reachable(entries)[0]
+    bad = []
+    for k in sorted(reach):
+        g = prog.fns.get(k) or getattr(prog, "helper_bodies", {}).get(k)
+        if g is None or not k.startswith("inkayaku_board::"):
+            continue
+        for bb in g["blocks"]:
+            t = bb["term"]
+            if t["k"] == "call" and not bb["cleanup"]:
+                ck = t["callee"].get("key") or ""
+                if "thread::local::LocalKey" in ck or "OnceLock" in ck or "LazyLock" in ck and "Regex" not in str(t["callee"].get("generic_args", "")):
+                    tys = " ".join(str(x) for x in t["callee"].get("generic_args", []))
+                    if "Move" in tys or "Vec" in tys or "RefCell" in tys or "Cell" in tys:
+                        bad.append((k, ck.rsplit("::", 2)[-2] + "::" + ck.rsplit("::", 1)[-1], t["line"]))
+    ok = not bad
+    f = prog.fns[entries[0]]
+    ctx.ob(rid, "no-move-cache-across-positions", ok,
+           "" if ok else "%s keeps data across calls (%s): candidate moves served from it were generated on another board - their undo fields (previous half-move clock, previous e.p. square) belong to that position, and the legality probe's unmake writes them into this one" % (prog.fns[bad[0][0]]["display"] if bad[0][0] in prog.fns else bad[0][0], bad[0][1]),
+           ctx.where(prog.fns.get(bad[0][0], f), bad[0][2]) if bad else ctx.where(f), sample={"functions_reached": len(reach)})
+
+
+_run_before_r8_cache = run
+
+
+def run(ctx):
+    _run_before_r8_cache(ctx)
+    r8_candidates_generated_for_this_position(ctx)
